@@ -1,7 +1,17 @@
-(* Properties_C14 -- tag dispatch and registries.  Statements only. *)
+(* Properties_C14 -- tag dispatch and registries.  Statements only.
+   Registries and the external-type table refine finite maps over any operation sequence.  DISPATCH is proved for whole
+   documents of the tagged fragment (integers, keywords, lists, vectors, tagged forms #tag <trivia> <form>, with trivia
+   and discarded forms of the same grammar in every gap; any size and nesting): the tree read is related to the term by
+   [hden] -- a registered tag is replaced by the handler's result for the already read inner value (inner tags first),
+   exactly one invocation per non-discarded registered tagged element (the log is their post-order list), an
+   unregistered tag yields the generic tagged value or, under UNWRAP, the inner value; without a registry every tag is
+   generic and the log is empty; nothing inside a discarded form reaches a handler.
+   PARTIAL: handler failure and the ERROR default (excluded by the side condition [hok]), namespaced tag names, and the
+   other element kinds are decided by the correspondence run + the dispatch oracle. *)
 From Coq Require Import ZArith NArith List Bool.
 From Coq.Strings Require Import Byte.
-From Verif Require Import Lanes Common Values Scan Reader Api RegistryProofs DiscardInv.
+From Verif Require Import Lanes Common Values Scan Reader Api RegistryProofs DiscardInv Configs FlagProofs RoundTripTag.
+From Coq Require Import String.
 Import ListNotations.
 
 (* the 16-bucket chained registry (bucket count and FNV constants GENERATED) refines a map:
@@ -33,6 +43,39 @@ Theorem C14_no_handler_in_discard : forall c o handler xe xh sort m e f s v s',
   discard s = true -> read_value c o handler xe xh sort m e f s = Ret v s' -> calls s' = calls s.
 Proof. exact discarded_form_calls_no_handler. Qed.
 
+(* whole documents of the tagged fragment *)
+Theorem C14_tagged_documents_partial : forall c o m a, In c all_cfgs -> hwf a -> hok o builtin_handler a ->
+  slice m 0 (List.length (hpr a)) = hpr a ->
+  exists r s n cs, run_doc c o m (N.of_nat (List.length (hpr a))) = Ret r s /\
+                   r_value r = Some n /\ r_err r = EOk /\ r_eof r = false /\
+                   hden c o builtin_handler false a n cs /\ calls (r_state r) = cs.
+Proof. exact read_document_tags. Qed.
+(* ... for every handler behaviour, at any position of any buffer (the induction behind it) *)
+Theorem C14_tagged_terms_anywhere : forall c, In c all_cfgs -> forall o handler xe xh sort m e n,
+  HIH c o handler xe xh sort m e n.
+Proof. exact read_hterm. Qed.
+(* without a registry no handler is invoked (and hden leaves only the generic tagged value for a tag) *)
+Theorem C14_no_registry_no_calls : forall c o handler d, has_registry o = false ->
+  (forall a n cs, hden c o handler d a n cs -> cs = []) /\ (forall l xs cs, hden_l c o handler d l xs cs -> cs = []).
+Proof. exact hden_no_registry. Qed.
+(* while a form is being discarded its denotation carries no invocation *)
+Theorem C14_discarded_forms_no_calls : forall c o handler,
+  (forall a n cs, hden c o handler true a n cs -> cs = []) /\ (forall l xs cs, hden_l c o handler true l xs cs -> cs = []).
+Proof. exact hden_discarding. Qed.
+(* non-vacuity:  [#inst 1 #_#inst [2] (#x #y :k) #_ #z 3]  with "inst" registered: side condition met, the run logs ONE call *)
+Example C14_tag_example :
+  let t1 := HTag (list_byte_of_string "inst") [" "%byte] (HInt false ["1"%byte]) in
+  let d1 := HDisc [] (HTag (list_byte_of_string "inst") [" "%byte] (HSeq true [([], HInt false ["2"%byte])] [])) in
+  let t2 := HSeq false [([], HTag ["x"%byte] [" "%byte] (HTag ["y"%byte] [" "%byte] (HKw ["k"%byte])))] [] in
+  let a := HSeq true [([], t1); ([HWs [" "%byte]; d1; HWs [" "%byte]], t2)] [HWs [" "%byte]; HDisc [" "%byte] (HTag ["z"%byte] [" "%byte] (HInt false ["3"%byte]))] in
+  hok example_opts builtin_handler a /\
+  match run_doc cfg00 example_opts (mem_of (hpr a)) (N.of_nat (List.length (hpr a))) with
+  | Ret r _ => map call_tag (calls (r_state r)) = [list_byte_of_string "inst"] /\ r_err r = EOk
+  | _ => False
+  end.
+Proof. exact tag_example_ok. Qed.
+
+Print Assumptions C14_tagged_documents_partial.
 Print Assumptions C14_registry_refines_map.
 Print Assumptions C14_ext_table.
 Print Assumptions C14_no_handler_in_discard.
